@@ -4,5 +4,5 @@
 import sys
 sys.path[:0] = ['/repo' + "/pulser-core", '/repo' + "/pulser-simulation", "/verif"]
 from symx.replay import replay
-sys.exit(replay(check='checks.c08', kernel='build', shape={'program': 'vars_basic'},
-                assignment={'v_a0': '1/8', 'v_b0': '1/8', 'v_n0/k': 2, 'w_a0': '33/128', 'w_b0': '1/8', 'w_n0/k': 2}, label='build:equals_direct_construction'))
+sys.exit(replay(check='checks.c08', kernel='build', shape={'program': 'kw_only'},
+                assignment={'v_a0': '1/8', 'v_b0': '1/8', 'w_a0': '129/1024', 'w_b0': '129/1024'}, label='build:equals_direct_construction'))
